@@ -68,6 +68,8 @@ func generate(w *mon.W) {
 			p = distinctThenDuplicates(rng)
 		case 6:
 			p = namedThenNarrowed(rng)
+		case 9:
+			p = renamedKeys(j)
 		case 10:
 			p = manyConditions(rng, 1+j%20)
 		case 12:
@@ -96,8 +98,10 @@ func DirectedPipelines(seed int64, n int) []*Pipe {
 	rng := gen.RNG(seed, "c03-directed")
 	var out []*Pipe
 	for i := 0; len(out) < n; i++ {
-		j := i / 9
-		switch i % 9 {
+		j := i / 10
+		switch i % 10 {
+		case 9:
+			out = append(out, renamedKeys(j))
 		case 0:
 			out = append(out, twinJoins(rng))
 		case 1:
@@ -119,6 +123,39 @@ func DirectedPipelines(seed int64, n int) []*Pipe {
 		}
 	}
 	return out
+}
+
+// renamedKeys: the key columns of both sides renamed to every pair of names
+// out of a small pool in which names are prefixes, suffixes and concatenations
+// of each other, joined on two equalities: form picks the ordered pairs.
+func renamedKeys(form int) *Pipe {
+	pool := []string{"x", "y", "xy", "yx", "x_y"}
+	var pairs [][2]string
+	for _, a := range pool {
+		for _, b := range pool {
+			if a != b {
+				pairs = append(pairs, [2]string{a, b})
+			}
+		}
+	}
+	lp := pairs[form%len(pairs)]
+	rp := pairs[(form/len(pairs))%len(pairs)]
+	v := form / (len(pairs) * len(pairs))
+	col := func(n, src string) Col { id := Ident{Name: n}; return Col{Name: &id, X: Name(src)} }
+	bare := func(n string) Col { id := Ident{Name: n}; return Col{Name: &id} }
+	left := &Op{K: "project", Cols: []Col{col(lp[0], "k"), col(lp[1], "j"), bare("id")}}
+	right := &Pipe{Table: Ident{Name: "U"}, Ops: []*Op{{K: "project", Cols: []Col{col(rp[0], "k"), col(rp[1], "j"), bare("uid")}}}}
+	conds := []*E{Bin("==", Name("$left", lp[0]), Name("$right", rp[0])), Bin("==", Name("$left", lp[1]), Name("$right", rp[1]))}
+	p := &Pipe{Table: Ident{Name: "T"}, Ops: []*Op{left}}
+	kind := []string{"", "inner", "leftouter", "innerunique"}[v%4]
+	p.Ops = append(p.Ops, &Op{K: "join", Kind: kind, Right: right, Conds: conds})
+	switch (v / 4) % 3 {
+	case 0:
+		p.Ops = append(p.Ops, &Op{K: "count"})
+	case 1:
+		p.Ops = append(p.Ops, &Op{K: "project", Cols: []Col{bare("id"), bare("uid")}})
+	}
+	return p
 }
 
 // twinJoins: two joins whose right-hand pipelines are identical except for one
